@@ -48,3 +48,41 @@ fn canary_must_fail() {
     let x: u8 = kani::any();
     assert!(x != 77, "VERIF-CANARY");
 }
+
+/// ASCII string of symbolic length 0..=N with symbolic content (valid UTF-8 because every byte
+/// is < 0x80)
+pub fn any_ascii_string<const N: usize>() -> String {
+    let b: [u8; N] = kani::any();
+    let len: usize = kani::any();
+    kani::assume(len <= N);
+    let mut i = 0;
+    while i < N {
+        kani::assume(b[i] < 0x80);
+        i += 1;
+    }
+    unsafe { String::from_utf8_unchecked(b[..len].to_vec()) }
+}
+
+// ---- contracts of std `format!` at the call sites whose result is used functionally ----------
+pub fn fmt_dollar(name: &str) -> String {
+    let mut r = String::with_capacity(1 + name.len());
+    r.push('$');
+    r.push_str(name);
+    r
+}
+pub fn fmt_join2(a: &str, b: &str) -> String {
+    let mut r = String::with_capacity(a.len() + 1 + b.len());
+    r.push_str(a);
+    r.push('_');
+    r.push_str(b);
+    r
+}
+pub fn fmt_join3(a: &str, b: &str, c: &str) -> String {
+    let mut r = String::with_capacity(a.len() + b.len() + c.len() + 2);
+    r.push_str(a);
+    r.push('_');
+    r.push_str(b);
+    r.push('_');
+    r.push_str(c);
+    r
+}
